@@ -1484,7 +1484,7 @@ func (vc *VC) exit(st *State, results []Term, guard string, pos token.Pos) {
 		}
 		vc.oblige("ensures", c.label(), c.Props, guard, s, c.Text, pos)
 	}
-	vc.frameObligations(st, guard, pos, "modifies")
+	vc.frameObligations(st, guard, pos, "modifies", results)
 	// vacuity canary: this exit must be reachable
 	o := vc.oblige("canary.exit", fmt.Sprintf("b%d", vc.curBlock.Index), nil, guard, "false", "exit is reachable under the assumptions (must be sat)", pos)
 	o.Canary = true
